@@ -1002,6 +1002,7 @@ func mlicCases(w *gal.Writer, seed uint64, tier string) {
 	add([][2]string{a}, nil, "corpus")
 	add(nil, [][2]string{a}, "corpus")
 	add([][2]string{a, b}, [][2]string{b, c}, "corpus")
+	add([][2]string{b, a, c}, [][2]string{b}, "corpus")  // a source info that is found, then new ones: they are appended all the same
 	add([][2]string{a, a}, nil, "corpus")                // the appended info is seen by the next source info
 	add([][2]string{a, a2}, nil, "corpus")               // conflict inside the source
 	add([][2]string{a2}, [][2]string{a}, "corpus")       // conflict with the target
